@@ -24,7 +24,7 @@ neutrons_per_fission = clone_as_symbol(symbols.particle_count, display_symbol="n
 Average number of neutrons produced per fission. See :symbols:`particle_count`.
 """
 
-macroscopic_fission_cross_section = clone_as_symbol(symbols.macroscopic_cross_section, display_symbol="Sigma_f", display_latex="\\Sigma_text{f}")
+macroscopic_fission_cross_section = clone_as_symbol(symbols.macroscopic_cross_section, display_symbol="Sigma_f", display_latex="\\Sigma_\\text{f}")
 """
 :symbols:`macroscopic_cross_section` of fission.
 """
